@@ -16,6 +16,19 @@ Theorem c15_string_roundtrip : forall s rest, nul_free s ->
 Proof. exact RoundTripInst.rt_string_roundtrip. Qed.
 Print Assumptions c15_string_roundtrip.
 
+(* the same for EVERY admissible writer table (distinct letters = injective, no NUL escaped, quote and
+   backslash escaped), read back with the inverse table: the escape table is data, not part of the proof *)
+Theorem c15_string_roundtrip_any_table : forall se, show_table_ok se ->
+  forall s rest, nul_free s ->
+  look_string true (invert_table se) (show_string se s ++ rest)%list = LDone s (length (show_string se s)).
+Proof. exact RoundTripProofs.string_roundtrip_any_table. Qed.
+Print Assumptions c15_string_roundtrip_any_table.
+
+(* the table found in String_Show is admissible *)
+Theorem c15_show_table_admissible : show_table_ok rt_show_escapes.
+Proof. exact RoundTripInst.rt_show_table_ok. Qed.
+Print Assumptions c15_show_table_admissible.
+
 (* Int: "%li" text of every int64 is read back by "%li" into the same value, consuming exactly that
    text, whatever follows that does not continue the number *)
 Theorem c15_int_roundtrip : forall z rest, int64 z -> stops_int rest ->
